@@ -33,15 +33,15 @@ def run(ctx):
         for n, workers in sizes:
             make_tree(root, n, rng)
             for driver in ('parblock', 'parfile'):
-                for stall in ((20000, 0) if n == 400 else (0,)):
+                for stall, extra in (((20000, []), (0, [])) if n == 400 else ((0, []), (0, ['--fsync']), (0, ['--no-perms', '--no-timestamps']))):
                     shutil.rmtree(root + '/D', ignore_errors=True)
                     plan = [f'stall copy_file_range {stall}'] if stall else []
-                    r = scen.run_xcp(root, ['-r', '--driver', driver, '--workers', str(workers), 'S', 'D'], plan=plan, timeout=600, nofile=1024, trace=True)
+                    r = scen.run_xcp(root, ['-r', '--driver', driver, '--workers', str(workers)] + extra + ['S', 'D'], plan=plan, timeout=600, nofile=1024, trace=True)
                     peak = r.final.get('peak_fds', -1)
                     bound = (2 * (CAP + workers + 1) if driver == 'parblock' else 2 * workers) + CONST
                     ctx.count(f'driver.{driver}'); ctx.count(f'files.{n}'); ctx.count(f'exit.{r.cls}')
-                    ctx.case((n, workers, driver, stall), True, sample=dict(files=n, workers=workers, driver=driver, stall_us=stall, peak_descriptors=peak, model_bound=bound))
-                    peaks[(n, workers, driver, stall)] = peak
+                    ctx.case((n, workers, driver, stall, tuple(extra)), True, sample=dict(files=n, workers=workers, driver=driver, stall_us=stall, options=extra, peak_descriptors=peak, model_bound=bound))
+                    peaks[(n, workers, driver, stall, tuple(extra))] = peak
                     ctx.cov['traces_validated_against_impl'] += 1
                     if r.cls != '0':
                         ctx.violation(f'tree-{n}-{driver}-{stall}.json', dict(files=n, workers=workers, driver=driver, plan=plan, exit=r.exit, stderr=r.stderr[-600:], peak=peak),
